@@ -24,8 +24,8 @@ def site(fi, node=None):
     return 'geomdl/%s.py:%s in %s' % (fi.mod, getattr(node or fi.node, 'lineno', '?'), fi.key)
 
 
-def check(m, run):
-    P = Purity(m)
+def pu2(m, run, P=None):
+    P = P or Purity(m)
     for key in INPLACE_FUNCS:
         fi = m.func(key)
         p0 = params_of(fi.node)[0]
@@ -45,6 +45,11 @@ def check(m, run):
         run.ob('PU2.same-object-when-inplace', key, bool(retT) and bool(muT),
                'with inplace=True the argument is updated and returned' if retT and muT else
                'with inplace=True %s' % ('the argument is not what is returned' if not retT else 'the argument is never updated'), site(fi))
+
+
+def check(m, run):
+    P = Purity(m)
+    pu2(m, run, P)
     pu3(m, run, P)
     views(m, run)
     maps(m, run)
